@@ -46,7 +46,7 @@ SCOPES = {
         sim_pool_num=8000,
     ),
 }
-MC_INV = ["TypeOK", "WorkingImpliesHealthyAndFresh", "NotWorkingWhenDisqualified", "ChannelIsStatus", "BackoffDoubles", "UncertainOnlyAsFallback"]
+MC_INV = ["TypeOK", "DeviationFree", "WorkingImpliesHealthyAndFresh", "NotWorkingWhenDisqualified", "ChannelIsStatus", "BackoffDoubles", "UncertainOnlyAsFallback"]
 MC_PROPS = ["NotifyOnlyOnChange"]
 STEPS = ["TickStep", "BatMsgStep", "InvMsgStep", "ResStep", "BatTimerStep", "InvTimerStep", "BatLateStep", "InvLateStep"]
 RACE_KS = [0, 1, 2, 3, 4, 5, 6, 8]
@@ -567,7 +567,11 @@ def _bind(rep: Report, name: str, sc: dict, mode: str, limit, pool: bool, simula
             ext["records"] += 1
             ext["example"] = ext["example"] or dict(detail=v.get("detail"), stage=name, trace_id=v["tid"], line=v.get("l"))
             continue
-        rep.fail(v["clause"], case, v.get("detail"), deviations=v.get("deviations", []))
+        devs = list(v.get("deviations", []))
+        detail = v.get("detail")
+        if devs:  # a named deviation explains the record (e.g. the repaired Dev_EdgeAgeAccepted came back): say so
+            detail = list(detail or []) + ["explained by", devs]
+        rep.fail(v["clause"], case, detail, deviations=devs)
 
 
 def execute_lines(trace: dict, cfg: dict) -> dict:
@@ -610,9 +614,9 @@ def replay(prop: str, data: dict) -> int:  # pylint: disable=unused-argument
         print("disagreement: this execution is not a behaviour of BatteryStatus.tla (not a violation by itself)")
     for v in bad:
         print(f"FAILS clause={v['clause']} line={v.get('l')} deviations={v.get('deviations', [])} detail={json.dumps(v.get('detail'))[:300]}")
-    known = [v for v in bad if v.get("deviations")]
-    print(f"replay: {len(bad)} failing clause records ({len(known)} explained by a named deviation)")
-    return 1 if len(bad) > len(known) else 0
+    named = [v for v in bad if v.get("deviations")]
+    print(f"replay: {len(bad)} failing clause records ({len(named)} of them carry a named deviation)")
+    return 1 if bad else 0
 
 
 def run(prop: str, tier: str) -> int:
@@ -643,12 +647,12 @@ def run(prop: str, tier: str) -> int:
     _bind(rep, "sim_pool", sc["sim_pool"], "sim", sc["sim_pool_num"], pool=True, simulate=f"num={max(1, sc['sim_pool_num'] // 5)}")
     rep.exhaustive = False  # emitted histories are subsampled / simulated; the MC stage itself is exhaustive
     need = dict(reportedUsable=1, disqualifiedEdges=1, silenceEdges=1, notifications=1, blockedPoints=1,
-                unblockedAfterBlock=1, resets=1, fallbackUsed=1, uncertainWithheld=1, maxConsecutive=4)
+                unblockedAfterBlock=1, resets=1, fallbackUsed=1, uncertainWithheld=1, maxConsecutive=4, devEdge=1)
     tot = rep.extra.get("antecedents_total", {})
     ndis = rep.extra.get("disagreements", {}).get("traces_not_explained_by_spec", 0)
-    if ndis:
-        rep.notes.append(f"{ndis} recorded executions are not a behaviour of BatteryStatus.tla (see evidence 'disagreements'); "
-                         "the property clauses were evaluated on them all the same")
+    rep.extra.setdefault("disagreements", dict(traces_not_explained_by_spec=0, examples=[]))
+    rep.notes.append(f"disagreements: {ndis} of {rep.validated} recorded executions are not a behaviour of BatteryStatus.tla"
+                     + (" (see evidence 'disagreements'; every property clause was evaluated on them all the same)" if ndis else ""))
     if not rep.failures:
         for k_, n in need.items():
             if tot.get(k_, 0) < n:
